@@ -60,6 +60,7 @@ BEH = {
     'skip02':   [('skip', [0, 2])],
     'skip12':   [('skip', [1, 2])],       # two ids in a row
     'skip34':   [('skip', [3, 4])],       # ... after the start-up phase
+    'skip5to11': [('skip', [5, 6, 7, 8, 9, 10, 11])],
     'slow30':   [('slow', 30)],
     'slow150':  [('slow', 150)],
     'slow250':  [('slow', 250)],       # more than two poll intervals: the waiting side re-requests (and times out a receive slice) meanwhile
@@ -555,6 +556,18 @@ def c05_family(tier, n):
             fs = [src(n, required='snk', period=40), src(n + 4, 'side', period=ps, topics=['main', 'aux']), sink('snk', srcs)]
             out.append(timely(scn(f'mixed2topics/{order}/p{ps}', fs), quiet=800))
 
+    # a watcher that connects AFTER the synchronized consumer of a publisher which is later asked to fast-forward: the publisher must
+    # adopt the id its synchronized consumer asks for, whoever else is in its client table
+    for m in ['?', '??']:
+        for late in [0, 300]:
+            # join of two independent chains: the first one jumps seven ids ahead, the join asks the second one to follow at once
+            fs = [src(n + 11, 's1', required='r', period=40), relay('r', ['s1'], 'skip5to11', required='snk'),
+                  src(n + 11, 's2', required='q', period=40), relay('q', ['s2'], 'slow30', required='snk'),
+                  sink('snk', ['r', 'q;main>other']), {**sink('lis0', [f'q{m};main>seen']), 'start_at': late}]
+            out.append(timely(scn(f'late-watch-join2chain/{m}/late{late}', fs), quiet=900))
+            out[-1]['timing_only'] = True      # (which of s2's frames q gets depends on when the join asks it to jump: no functional reference;
+                                               #  judged by the with / without listener differential and, in the schedule exploration, by set integrity and order)
+
     # killed listener (hard kill at every step of the reference run)
     for m in ['?', '??']:
         fs = base(40) + [sink('lis0', [f'src{m}'])]
@@ -759,6 +772,12 @@ def c06_family(tier):
     # a consumer that is not a required output dies and never returns: the others keep going after the connection timeout
     mk('tee-dies/b', tee(), ['b'], [None])
     mk('rejoin2-dies/b2?', [src(N, period=period), relay('b1', ['src']), sink('snk', ['b1']), sink('b2', ['src'])], ['b2'], [None])
+
+    # ... the consumers that stay alive are all '?' listeners: their requests are the only traffic that can get the dead record dropped
+    for nl in [1, 2]:
+        fs = [src(N, period=period), sink('b', ['src'])] + [sink(f'lis{i}', [f'src?;main>x{i}']) for i in range(nl)]
+        mk(f'listeners-stay/b-dies/{nl}', fs, ['b'], [None])
+        out[-1]['c06_listeners_live'] = True
 
     # a consumer that is not a required output falls silent for longer than the connection timeout: the others must not wait for it
     for k in [1, 3]:
